@@ -35,6 +35,83 @@ def roundtrip(graph, target, tmpdir):
         return "read-failed", e
 
 
+def big_and_twins(ctx, tmpdir, big=True):
+    """tensors far larger than the sampled ones (several MiB, first axis not a multiple of any power of two) and
+    pairs of parameters with identical bytes but different shapes / dtypes in one graph -- sizes at which a writer
+    may switch strategy (chunked / slab-wise copies, de-duplication, memory mapping)"""
+    import nir
+    rng = ctx.rng
+    specs = [((1500, 1000), "<f4"), ((3000001,), "<i2"), ((2048, 1024), "<f4"), ((701, 809), "<f8"), ((3, 1234567), "|u1")]
+    if ctx.tier == "quick":
+        specs = rng.sample(specs, 3 if big else 1)
+    for shape, dt in specs:
+        seed = rng.randrange(2 ** 32)
+        g = np.random.default_rng(seed)
+        n = int(np.prod(shape))
+        w = np.frombuffer(g.bytes(n * np.dtype(dt).itemsize), dtype=dt).reshape(shape).copy()
+        if np.dtype(dt).kind == "f":
+            w = np.nan_to_num(w, nan=1.5, posinf=2.0, neginf=-2.0)
+        if rng.random() < 0.5 and len(shape) == 2:
+            w = w.T                      # a transposed (non-contiguous) view
+        target = rng.choice(["str", "bytesio"])
+        case = {"op": "big_tensor", "shape": list(w.shape), "dtype": dt, "seed": seed, "target": target,
+                "transposed": not w.flags["C_CONTIGUOUS"]}
+        ctx.case(case); ctx.count("big_tensors"); ctx.count("big_bytes", w.nbytes)
+        graph = nir.NIRGraph(nodes={"n": nir.Scale(scale=w)}, edges=[])
+        status, res = roundtrip(graph, target, tmpdir)
+        if status != "ok":
+            ctx.violate(case, f"large tensor: {status}", {"site": "roundtrip", "what": status, "size": "big"},
+                        observed=err_name(res) if isinstance(res, Exception) else str(res)); continue
+        a = np.asarray(res.nodes["n"].scale)
+        if a.dtype != w.dtype or a.shape != w.shape or np.ascontiguousarray(a).tobytes() != np.ascontiguousarray(w).tobytes():
+            bad = int(np.sum(np.ascontiguousarray(a).view("u1") != np.ascontiguousarray(w).view("u1"))) if a.shape == w.shape and a.dtype == w.dtype else -1
+            ctx.violate(case, "large array parameter not read back bit-for-bit",
+                        {"site": "roundtrip", "what": "bytes", "size": "big"},
+                        observed={"dtype": str(a.dtype), "shape": list(a.shape), "differing_bytes": bad},
+                        required={"dtype": str(w.dtype), "shape": list(w.shape)})
+    for _ in range(ctx.n(6, 24)):
+        n = rng.choice([12, 96, 1024, 4096, 200000])
+        dt = rng.choice(["<f8", "<f4", "<i4"])
+        how = rng.choice(["ones", "zeros", "random"])
+        base = {"ones": np.ones(n, dtype=dt), "zeros": np.zeros(n, dtype=dt)}.get(how)
+        if base is None:
+            base = np.frombuffer(np.random.default_rng(rng.randrange(2 ** 32)).bytes(n * np.dtype(dt).itemsize), dtype=dt).copy()
+            if np.dtype(dt).kind == "f":
+                base = np.nan_to_num(base, nan=0.5, posinf=1.0, neginf=-1.0)
+        facts = [d for d in (2, 3, 4, 8, 16) if n % d == 0]
+        d = rng.choice(facts)
+        shapes = [(n,), (d, n // d), (n // d, d)]
+        rng.shuffle(shapes)
+        s1, s2 = shapes[0], shapes[1]
+        same_view = rng.random() < 0.3
+        a1 = base.reshape(s1)
+        a2 = base.reshape(s2) if same_view else base.copy().reshape(s2)
+        # same bytes, another dtype of the same width, in a third node
+        other = {"<f8": "<i8", "<f4": "<i4", "<i4": "<f4"}[dt]
+        a3 = base.copy().view(other)
+        if np.dtype(other).kind == "f":
+            a3 = np.nan_to_num(a3, nan=0.25, posinf=3.0, neginf=-3.0)
+        case = {"op": "twin_tensors", "n": n, "dtype": dt, "pattern": how, "shapes": [list(s1), list(s2)],
+                "same_buffer": same_view}
+        ctx.case(case); ctx.count("twin_tensors"); ctx.count("twin_n_%d" % n)
+        graph = nir.NIRGraph(nodes={"a": nir.Scale(scale=a1), "b": nir.Threshold(threshold=a2), "c": nir.Delay(delay=a3)},
+                             edges=[("a", "b")] if s1 == s2 else [])
+        target = rng.choice(["str", "path", "bytesio"])
+        status, res = roundtrip(graph, target, tmpdir)
+        if status != "ok":
+            ctx.violate(case, f"twin tensors: {status}", {"site": "roundtrip", "what": status, "size": "twin"},
+                        observed=err_name(res) if isinstance(res, Exception) else str(res)); continue
+        for name, fld, want in (("a", "scale", a1), ("b", "threshold", a2), ("c", "delay", a3)):
+            got = np.asarray(getattr(res.nodes[name], fld))
+            if got.dtype != want.dtype or got.shape != want.shape or got.tobytes() != np.ascontiguousarray(want).tobytes():
+                ctx.violate(case, f"parameter {name}.{fld} sharing its bytes with another parameter is not read back "
+                            "with its own dtype, shape and bytes", {"site": "roundtrip", "what": "twin", "size": "twin"},
+                            observed={"dtype": str(got.dtype), "shape": list(got.shape)},
+                            required={"dtype": str(want.dtype), "shape": list(want.shape)})
+                break
+
+
+
 def fresh_types_diff(g, path=""):
     """the types of every node of the result equal those of a node constructed afresh from
     the same parameters"""
@@ -131,6 +208,7 @@ def run(ctx):
             if ft:
                 ctx.violate(case, "types of the read graph differ from fresh construction",
                             {"site": "roundtrip", "what": "fresh-types"}, observed=ft[:5])
+        big_and_twins(ctx, tmpdir, big=False)
         ctx.compare("files", cases, obs, reqs)
         ctx.compare("files", cases2, obs2, reqs2)
     finally:
